@@ -1133,6 +1133,159 @@ def dtype_discr_probes(out, rng, tier):
                                % (prop, dt, p), head + chk, (env.get('observed'), env.get('expected'))))
 
 
+# ------------------------------------------------ value range (wrap-around, overflow, underflow)
+_RANGE_SRC = """import math
+from fractions import Fraction
+def froot(F, p):
+    # p-th root of a non-negative Fraction without leaving the float range
+    if F == 0:
+        return 0.0
+    lg = F.numerator.bit_length() - F.denominator.bit_length()
+    k = lg // int(p)
+    return math.ldexp(float(F / Fraction(2) ** (k * int(p))) ** (1.0 / p), k)
+def exact_norm(vals, w, p):
+    # documented (sum_i w_i |x_i|^p)^(1/p) resp. max_i w_i |x_i|, exact rational arithmetic on the values
+    vals = [complex(v) for v in vals]
+    if p == float('inf'):
+        return max(float(Fraction(wi) * Fraction(max(abs(v.real), abs(v.imag)))) if v.real == 0 or v.imag == 0
+                   else float(wi) * abs(v) for wi, v in zip(w, vals))
+    if p == 2:
+        S = sum(Fraction(wi) * (Fraction(v.real) ** 2 + Fraction(v.imag) ** 2) for wi, v in zip(w, vals))
+    else:
+        S = sum(Fraction(wi) * abs(Fraction(v.real)) ** int(p) for wi, v in zip(w, vals))   # real data for p != 2
+    return froot(S, p)
+def representable(F, single=False):
+    # zero, or inside the normal range of the floating type (else the property cannot be evaluated in floats)
+    F = abs(F)
+    e = 120 if single else 1000
+    return F == 0 or (Fraction(2) ** -e < F < Fraction(2) ** e)
+def exact_inner(xv, yv, w, single=False):
+    re = sum(Fraction(wi) * (Fraction(complex(a).real) * Fraction(complex(b).real)
+                             + Fraction(complex(a).imag) * Fraction(complex(b).imag)) for wi, a, b in zip(w, xv, yv))
+    im = sum(Fraction(wi) * (Fraction(complex(a).imag) * Fraction(complex(b).real)
+                             - Fraction(complex(a).real) * Fraction(complex(b).imag)) for wi, a, b in zip(w, xv, yv))
+    if not (representable(re, single) and representable(im, single)):
+        return None
+    # third entry: sum of |terms|, the scale against which accumulated rounding is measured
+    sc = sum(Fraction(wi) * (abs(Fraction(complex(a).real)) + abs(Fraction(complex(a).imag)))
+             * (abs(Fraction(complex(b).real)) + abs(Fraction(complex(b).imag))) for wi, a, b in zip(w, xv, yv))
+    return float(re), float(im), (float(sc) if representable(sc, single) else max(abs(float(re)), abs(float(im))))
+"""
+exec(_RANGE_SRC)
+
+
+def _range_key(dtype, prop, p, wk, kind):
+    """open finding that explains a failure of this probe on today's code (None: a violation)"""
+    if dtype.startswith(('int', 'uint')):
+        if prop == 'inner' or (prop in ('norm', 'dist') and p == 2 and (wk == 'array' or kind == 'pspace')):
+            return 'int-inner-wraps-in-dtype'              # np.dot / x * w in the integer dtype
+        if wk == 'array' and p == INF and prop in ('norm', 'dist'):
+            return 'int-array-weighting-pinf-wraps-in-dtype'   # xp *= w in the integer dtype
+        if dtype == 'uint64' and prop == 'dist':
+            return 'uint64-dist-lincomb-loses-range'       # x - y through float64 (arithmetic, C01)
+        return None
+    if p == 2 and (wk == 'array' or kind == 'pspace'):
+        return 'norm-p2-via-inner-unscaled-overflow'       # sqrt(inner(x, x)): unscaled sum of squares
+    if p not in (1, 2, INF):
+        return 'norm-generic-p-unscaled-overflow'          # np.linalg.norm(ord=p) / sum(|x|^p)
+    return None
+
+
+def range_probes(out, rng, tier, only=None):
+    """Entries near the limits of the dtype: integer dtypes int8..uint64 (squares exceed the dtype),
+    float32/64 and complex64/128 scaled by 1e-25..1e25 / 1e-200..1e200; sizes in all three regimes of the
+    implementation; exponents 1, 2, inf, 3; no / constant / array weighting; tensor, discretized and product
+    spaces.  Oracle: exact rational arithmetic on the stored values."""
+    thorough = tier != 'quick'
+    fams = []
+    for dt in ('int8', 'int16', 'int32', 'int64', 'uint8', 'uint16', 'uint32', 'uint64'):
+        fams.append((dt, [None]))
+    fams.append(('float64', [1e-200, 1e-160, 1e160, 1e200]))
+    fams.append(('float32', [1e-25, 1e-20, 1e20, 1e25]))
+    fams.append(('complex128', [1e-200, 1e200]))
+    fams.append(('complex64', [1e-25, 1e25]))
+    sizes = [3, 50, 200] if not thorough else [1, 3, 50, 99, 100, 200, 5000]
+    if not thorough:
+        fams = [(dt, ([None] if sc == [None] else [sc[0], sc[-1]])) for dt, sc in fams
+                if dt in ('int8', 'int16', 'int64', 'uint8', 'uint64', 'float64', 'float32', 'complex128', 'complex64')]
+    for dt, scales in fams:
+        for scale in scales:
+            for p, wk, kind in itertools.product([1, 2, INF, 3], ['none', 'const', 'array'],
+                                                 ['tensor', 'discr', 'pspace']):
+                if only is not None and not only(dt, p, wk, kind):
+                    continue
+                ns = list(sizes)
+                if (wk, kind) == ('none', 'tensor') and ((p == 2 and dt in ('int8', 'float64')) or
+                                                         (thorough and p in (1, 2))):
+                    ns.append(60000)                                        # a few large cases
+                if thorough and kind != 'tensor':
+                    ns = [3, 99, 200]
+                if not thorough and kind != 'tensor':
+                    if dt not in ('int8', 'uint64', 'float64', 'complex128'):
+                        continue
+                    ns = [3, 200]
+                if dt.startswith('complex') and p not in (2,):
+                    continue                      # the exact oracle handles complex data for p = 2 only
+                for n in ns:
+                    psrc = "float('inf')" if p == INF else repr(float(p))
+                    if scale is None:
+                        vals = ("info = np.iinfo(dt); i = np.arange(n)\n"
+                                "x = np.where(i % 3 == 0, info.max, np.where(i % 3 == 1, info.max // 2, "
+                                "info.min + 2 if info.min < 0 else 7)).astype(dt)\n"
+                                "y = (i % 2).astype(dt)\nwarr = (i % 3 + 1).astype(dt)\n")
+                    else:
+                        vals = ("i = np.arange(n); base = ((i %% 5) - 2).astype(float); base[0] = 3.0\n"
+                                "x = (base * %r).astype(dt); y = (-(base[::-1]) * %r / 2).astype(dt)\n"
+                                "if np.dtype(dt).kind == 'c':\n    x = (x * (1 + 1j)).astype(dt); y = (y * (2 - 1j)).astype(dt)\n"
+                                "warr = (i %% 3 + 1).astype('float32' if dt in ('float32', 'complex64') else 'float64')\n"
+                                % (scale, scale))
+                    head = ("import numpy as np, odl, warnings\nwarnings.simplefilter('ignore')\n" + _RANGE_SRC +
+                            "dt = %r; n = %d; p = %s; wk = %r; kind = %r\n" % (dt, n, psrc, wk, kind) + vals +
+                            "kw = {} if wk == 'none' else ({'weighting': 2.0} if wk == 'const' else {'weighting': warr})\n"
+                            "w = [1.0] * n if wk == 'none' else ([2.0] * n if wk == 'const' else [float(v) for v in warr])\n"
+                            "if kind == 'discr':\n"
+                            "    if wk == 'none':\n        kw = {}\n"
+                            "    sp = odl.uniform_discr(0, 2, n, dtype=dt, exponent=p, **kw)\n"
+                            "    w = ([1.0] * n if p == float('inf') else [2.0 / n] * n) if wk == 'none' else w\n    X = sp.element(x); Y = sp.element(y)\n"
+                            "    xv, yv = x.tolist(), y.tolist()\n"
+                            "elif kind == 'pspace':\n"
+                            "    s1 = odl.tensor_space(n, dtype=dt, exponent=p, **kw)\n"
+                            "    sp = odl.ProductSpace(s1, 2, exponent=p)\n"
+                            "    X = sp.element([x, x[::-1].copy()]); Y = sp.element([y, y])\n"
+                            "    xv, yv, w = x.tolist() + x[::-1].tolist(), y.tolist() * 2, w + w\n"
+                            "else:\n    sp = odl.tensor_space(n, dtype=dt, exponent=p, **kw)\n"
+                            "    X = sp.element(x); Y = sp.element(y); xv, yv = x.tolist(), y.tolist()\n"
+                            "tol = 1e-5 if dt in ('float32', 'complex64') else 1e-11\n"
+                            "cl = lambda u, v: bool(np.isfinite(u)) and abs(u - v) <= tol * abs(v)\n")
+                    checks = {
+                        'norm': "observed = X.norm(); expected = exact_norm(xv, w, p); ok = cl(observed, expected)\n",
+                        'dist': "observed = X.dist(Y)\n"
+                                "expected = exact_norm([complex(a) - complex(b) if np.dtype(dt).kind == 'c' else "
+                                "(int(a) - int(b) if np.dtype(dt).kind in 'iu' else Fraction(a) - Fraction(b)) "
+                                "for a, b in zip(xv, yv)], w, p)\nok = cl(observed, expected)\n"}
+                    if p == 2:
+                        checks['inner'] = ("observed = complex(X.inner(Y)); expected = exact_inner(xv, yv, w, dt in ('float32', 'complex64'))\n"
+                                           "sc = 0.0 if expected is None else max(expected[2], 1e-300) * (10 if tol > 1e-8 else 1)\n"
+                                           "ok = expected is None or (bool(np.isfinite(observed.real)) and "
+                                           "abs(observed.real - expected[0]) <= tol * sc "
+                                           "and abs(observed.imag - expected[1]) <= tol * sc)\n")
+                    for prop, chk in checks.items():
+                        env = {}
+                        try:
+                            exec(head + chk, env)
+                            ok = bool(env.get('ok'))
+                        except Exception as e:
+                            ok = False
+                            env['observed'] = repr(e)
+                        key = 'range-%s-%s-%s-p%s-%s' % (kind, dt, wk, 'inf' if p == INF else int(p), prop)
+                        if not ok:
+                            key = _range_key(dt, prop, p, wk, kind) or key
+                        out.append(C.Probe(ok, key, '%s on a %s %s space (%d entries, weighting %s, exponent %r%s) vs '
+                                           'exact rational arithmetic' % (prop, dt, kind, n, wk, p,
+                                                                          '' if scale is None else ', scale %g' % scale),
+                                           head + chk, (str(env.get('observed')), str(env.get('expected')))))
+
+
 def search(rng, broken):
     """A correspondence case failed but no probe produced an input: re-evaluate the independent oracle on
     that very case (same space, data, memory layouts and exponent), then on every other layout."""
@@ -1163,6 +1316,19 @@ def search(rng, broken):
                         return C.Probe(False, '%s-layout-%s-%s' % (_kind(space), lname, prop),
                                        '%s (failing correspondence case %s) vs NumPy on the logical data' % (prop, what),
                                        _layout_replay(detail['src'], xd, yd, k, xl, yl, prop), det)
+    # value-range family (wrap-around / overflow / underflow) on the exponents of the failing cases
+    expos = set()
+    for kind, what, detail in broken:
+        if kind == 'correspondence' and isinstance(detail, dict) and isinstance(detail.get('space'), dict):
+            e = detail['space'].get('exponent')
+            if e is not None:
+                expos.add(INF if e == 'inf' else float(e))
+    cand = []
+    range_probes(cand, rng, 'quick', only=(lambda dt, p, wk, kind: (not expos) or p in expos))
+    known = C.load_findings(PID)
+    for pr in cand:
+        if not pr.ok and pr.key not in known:
+            return pr
     return None
 
 
@@ -1258,6 +1424,7 @@ def probes(rng, tier):
     # memory layouts (C / F / wrapped Fortran / transposed / strided) x array weights x exponents
     layout_probes(out, rng, tier)
     size_probes(out, rng, tier)
+    range_probes(out, rng, tier)
     complex_size_probes(out, rng, tier)
     dtype_discr_probes(out, rng, tier)
     # the switches derived from the source text agree with the behaviour measured on the findings' inputs
